@@ -117,6 +117,7 @@ fn ctx_json(rqctx: &RequestContext<SimCtx>) -> Value {
         "uri": rq.uri().to_string(),
         "headers": headers,
         "peer": rq.remote_addr().to_string(),
+        "version": format!("{:?}", rq.version()),
         "request_id": rqctx.request_id,
         "operation_id": rqctx.endpoint.operation_id,
     })
